@@ -474,7 +474,9 @@ async def remove_deletable_files(workflow: Workflow, reporter: ReporterClient):
         "DIRECTOR",
         f"Trying to remove {len(file_paths)} deletable file(s) and empty director(y|ies)",
     )
-    # Remove the files from the file system.
+    # Decide first, remove afterwards: an output that is a symbolic link to another queued
+    # output must be hashed while its target is still there, or it would be left dangling.
+    removable = []
     for file_path in sorted(file_paths, reverse=True):
         old_hash = workflow.to_be_deleted[file_path]
         path = Path(file_path)
@@ -487,6 +489,9 @@ async def remove_deletable_files(workflow: Workflow, reporter: ReporterClient):
                 # so there is no way to tell whether it still holds the built content.
                 await reporter("WARNING", f"Not removing {path}: it cannot be hashed.")
                 continue
+        removable.append(path)
+    # Remove the files from the file system.
+    for path in removable:
         if _try_remove(path.remove):
             await reporter("REMOVE", path)
 
